@@ -144,7 +144,8 @@ def run(tier, V, only=None, V15=None):
                             else:
                                 bad15[key] = bad15[key][:5] + (bad15[key][5] + 1,)
                 continue
-            for (label, expr, sel), ser in zip(e["outs"], o["out"]):
+            for oi_, ((label, expr, sel), ser) in enumerate(zip([x[:3] for x in e["outs"]], o["out"])):
+                alt = (o.get("alt") or [None] * len(o["out"]))[oi_]
                 st = per.setdefault((e["pipe"], label), {"compared": 0, "exempt": 0})
                 lo, vals = ser["lo"], ser["v"]
                 for j, nd in enumerate(vals):
@@ -170,6 +171,14 @@ def run(tier, V, only=None, V15=None):
                         nonfinite = got != got or got in (float("inf"), float("-inf"))
                         earlier_undef = any(nd2[1] == 0 for s2 in o["out"] for j2, nd2 in enumerate(s2["v"]) if s2["lo"] + j2 < pos)
                         sym = "nonfinite-after-undefined" if (nonfinite and earlier_undef) else ("value-decimal-unit" if decimal else "value")
+                        # does it deviate exactly the way a recorded finding says (spec/Formulas.tla, "...AsCoded")?
+                        if alt and alt["v"] and not decimal:
+                            ai = pos - alt["lo"]
+                            if 0 <= ai < len(alt["v"]):
+                                an = alt["v"][ai]
+                                # (where the recorded computation itself divides by zero, IEEE arithmetic decides: x/0 = Inf, y/Inf = 0)
+                                if an[1] == 0 or (got == got and F.close_enough(got, Fraction(an[0], an[1]))):
+                                    sym = "as-recorded-deviation"
                         key = (e["pipe"], label, sym, tuple(it["cfg"]))
                         cand = (len(o["w"]), it["cfg"], o["w"], pos, got, str(ex), float(ex), expr.format(*it["cfg"]))
                         if key not in bad or cand[0] < bad[key][0]:
